@@ -202,6 +202,9 @@ def run(rep):
     rep.check(len(ins) == 1 and ins[0].dest == [0], "C20-R3", ad.def_, "add-returns-newly-inserted", "Compute::add must return whether the layout was newly inserted into the ordered set", detail={})
 
     r5(rep, prog)
+    # derive(Introspectable) numbers items like the codec derives do (otherwise the id describes another wire format)
+    import c16
+    c16.r4(rep, mir.Program(fdir, crates=["aldrin_macros"]), rule="C20-R6")
 
     # ---- R4 record round trip --------------------------------------------------------------------------------
     C = pairs.collect(prog)
